@@ -41,6 +41,8 @@ class Recorder(object):
         idx = len(self.trace)
         self.trace.append(site)
         fault = self.plan.get(idx)
+        if fault is None:
+            fault = self.plan.get(site)   # a condition of the environment: EVERY call of that kind fails
         if fault is not None:
             self.injected.append((idx, site, fault))
         return fault
